@@ -34,6 +34,8 @@ var apis = []api{
 	{Name: "reflect.SliceHeader", Use: `_ = reflect.SliceHeader{}`},
 	{Name: "reflect.PtrTo", Use: `_ = reflect.PtrTo(reflect.TypeOf(0))`},
 	{Name: "runtime.GOROOT", Use: `_ = runtime.GOROOT()`},
+	// a deprecated PACKAGE: SA1019 judges the import in a second pass; it must use the importing file's version
+	{Name: "io/ioutil", Use: ``},
 }
 
 type cliCell struct {
@@ -86,6 +88,16 @@ func runCLI(bin, work string, rnd *hx.Rand, nmods, nflags int, out string) {
 	var o cliOut
 	o.APIs = apis
 	mods := pick(versions, nmods)
+	low := 16 + rnd.Intn(3)
+	hasLow := false
+	for _, m := range mods {
+		if m < 19 {
+			hasLow = true
+		}
+	}
+	if !hasLow {
+		mods = append([]int{low}, mods...)
+	}
 	for _, m := range mods {
 		dir := filepath.Join(work, fmt.Sprintf("cli-m%d", m))
 		hx.WriteFile(filepath.Join(dir, "go.mod"), fmt.Sprintf("module example.com/c%d\n\ngo 1.%d\n", m, m))
@@ -106,10 +118,12 @@ func runCLI(bin, work string, rnd *hx.Rand, nmods, nflags int, out string) {
 			if t != 0 {
 				fmt.Fprintf(&b, "//go:build go1.%d\n\n", t)
 			}
-			b.WriteString("package p\n\nimport (\n\t\"crypto/x509\"\n\t\"math/rand\"\n\t\"reflect\"\n\t\"runtime\"\n\t\"strings\"\n\t\"time\"\n)\n\n")
+			b.WriteString("package p\n\nimport (\n\t\"crypto/x509\"\n\t_ \"io/ioutil\"\n\t\"math/rand\"\n\t\"reflect\"\n\t\"runtime\"\n\t\"strings\"\n\t\"time\"\n)\n\n")
 			fmt.Fprintf(&b, "func F%d() {\n", t)
 			for _, a := range apis {
-				b.WriteString("\t" + a.Use + "\n")
+				if a.Use != "" {
+					b.WriteString("\t" + a.Use + "\n")
+				}
 			}
 			b.WriteString("\t_ = time.Tick(time.Second)\n}\n")
 			hx.WriteFile(filepath.Join(dir, fmt.Sprintf("f%d.go", t)), b.String())
@@ -176,7 +190,7 @@ func runCLI(bin, work string, rnd *hx.Rand, nmods, nflags int, out string) {
 				case "SA1019":
 					for i, a := range apis {
 						short := a.Name[strings.LastIndex(a.Name, "/")+1:]
-						if strings.HasPrefix(d.Message, short+" ") || strings.HasPrefix(d.Message, a.Name+" ") {
+						if strings.HasPrefix(d.Message, short+" ") || strings.HasPrefix(d.Message, a.Name+" ") || strings.HasPrefix(d.Message, "package "+a.Name+" ") {
 							c.SA1019[i], matched = true, true
 						}
 					}
